@@ -74,6 +74,20 @@ CHECKS = {
              "exception class; independent brute-force oracle over all consistent value assignments.",
         ref="4 C08", technique="Coq proof (reachability invariant over op histories, verified layout checker) + vm_compute correspondence on histories",
         note=TB + " Auto-length float formula int(log(v,2))+1 is modelled as bit length (values < 2^47); checked never narrower by correspondence."),
+    "C02": dict(
+        text="Universal theorems about Gallina models of the placers: the sequential scan is sound, terminating, raises only "
+             "the two documented errors and is complete under the property's premise for ANY vertex order covering the "
+             "vertices and ANY chip order (this covers sequential, breadth-first, Hilbert and RCM, which differ only in the two "
+             "orders; same-chip chains/duplicates by a merge/expand induction); the random placer likewise for every oracle of "
+             "random choices; one step of the Python annealing kernel preserves the state invariant for any draw/accept "
+             "decision and any invariant-preserving kernel yields a feasible result; Hilbert chip order side condition proved "
+             "for machines up to 16x16 (finite, stated). A verified checker check_placement (soundness proved) is evaluated in "
+             "Coq on the REAL output of all seven placer configurations. Exact correspondence for the sequential family, rand "
+             "(scripted), SA initial placement and step-by-step replay of the Python kernel; independent feasibility oracle.",
+        ref="4 C02", technique="Coq proof (invariant free = capacity - reserved - placed; verified validator) + vm_compute correspondence incl. step replay of the SA kernel",
+        note=TB + " Partial where stated: the rig_c_sa C kernel is third-party compiled code (outputs validated only); the float "
+             "temperature loop is not modelled (termination observed under an alarm); set iteration order inside the bf/RCM order "
+             "functions is recorded per instance, not modelled."),
 }
 NOT_YET = {}
 def main():
